@@ -5,7 +5,7 @@ OPTS = [dict(), dict(p_alias=0.6, p_nonexcl=0.4), dict(p_nested=0.35), dict(sche
 
 
 def run(rep):
-    core_check(rep, "C04", [dict(o) for o in OPTS], 96, 1600, nontrivial_key="impl_designs_built")
+    core_check(rep, "C04", [dict(o) for o in OPTS], 64, 1600, nontrivial_key="impl_designs_built")
     rep.coverage["rule"] = ("random designs from vlib/coregen.py's grammar built with the real API, every valuation of the "
                             "control inputs (or random ones when there are many), both directions bound by TxnCoreTrace; "
                             "clauses MethodRunIffActiveSite, NestedRunsOnlyWithParent, SiteWitnessMatches; distinct_nontrivial = built designs")
